@@ -16,7 +16,7 @@ RULE = ("cases = generated 2D/3D plotfiles (any layout, special payloads, format
         "non-monotone layout at some level")
 ASSUMPTIONS = ["generator/refparse trusted base", "pool shim M1 with shuffled schedules",
                "selections with duplicates or with no present name: only 'raise or taste-valid'"]
-REQUIRED_OBS = {"strained": 100, "cli_runs": 5, "level_dropped": 10, "reordered": 10}
+REQUIRED_OBS = {"strained": 100, "cli_runs": 5, "level_dropped": 10, "reordered": 10, "two_digit_to_one_digit": 10}
 TIMEOUT = {"quick": 300, "thorough": 1500}
 
 
@@ -26,6 +26,9 @@ def cases(tier, seed):
     for i, c in enumerate(cs):
         c["sel_seed"] = seed * 23 + i
         c["nsel"] = 10 if tier == "quick" else 14
+        if i % 4 in (0, 1):        # two-digit field counts in 2D and 3D (the count is part of every FAB header)
+            c["gen"]["nfields"] = 10 + (i // 4) % 3
+            c["gen"]["nlevels"] = min(c["gen"]["nlevels"], 2)
     if tier == "thorough":
         for a in ("example_plt_2d", "example_plt_3d", "plt_eb_3d"):
             cs.append({"asset": a, "sel_seed": seed, "nsel": 3})
@@ -145,6 +148,8 @@ def run_case(case, work, rec):
                 rec.count("level_dropped")
             if comps != sorted(comps):
                 rec.count("reordered")
+            if len(names) >= 10 and len(comps) < 10:
+                rec.count("two_digit_to_one_digit")
             if probs:
                 rec.violation(f"strained plotfile differs from the selection ({probs[0][:120]}): {descr}",
                               key=key, witness={"selection": sel, "limit": limit, "differences": probs[:5]})
